@@ -367,6 +367,7 @@ class Ref:
             tgt = self.framers[a[3]]
             status = self.send(tgt, a[2])
             want = {"ready": READIED, "start": STARTED, "run": RUNNING, "stop": STOPPED, "abort": ABORTED}[a[2]]
+            self.log.append(("~fiat", tgt.name, a[2], str(status == want)))
             return status == want
         if k == "put":
             self.update(a[3], value=a[2])
@@ -655,8 +656,9 @@ class Ref:
                     nxt.append([R, due, per])
                     status = R.status
                 else:
-                    status = self.send(R, R.desire)
-                    out.controls.append((self.now, R.name, None, status))
+                    ctl = R.desire
+                    status = self.send(R, ctl)
+                    out.controls.append((self.now, R.name, ctl, status))
                     if status == ABORTED:
                         pass
                     else:
